@@ -29,7 +29,17 @@ def mentioned_classes(model: Model, cname: str) -> list:
     for c in model.mro(ci):
         if c.name in ("Expression",):
             continue
-        for fi in c.methods.values():
+        bodies = list(c.methods.values())
+        # module-level helpers of the class's own module that its methods call (one level)
+        seen = set()
+        for fi in list(bodies):
+            for node in ast.walk(fi.node):
+                if isinstance(node, ast.Call) and isinstance(node.func, ast.Name) and node.func.id not in seen:
+                    seen.add(node.func.id)
+                    r = model.resolve(c.module, node.func)
+                    if r and r[0] == "func" and r[1].cls is None and r[1].module is c.module:
+                        bodies.append(r[1])
+        for fi in bodies:
             for node in ast.walk(fi.node):
                 if not isinstance(node, ast.Call):
                     continue
@@ -70,17 +80,21 @@ def child_shapes(cname: str, nm: Namer, tier: str, rich: bool) -> list:
         return [(cname, nm.var())]
     if cname in ("NthPower", "NthRoot"):
         return [(cname, nm.var(), n) for n in ns]
+    # (bases related by integer powers: 2, 4, 1/4)
     if cname == "Exponential":
-        return [(cname, nm.var(), b) for b in ((2, E, 0.5) if rich else (2, E))]
+        return [(cname, nm.var(), b) for b in ((2, E, 0.5, 4, 0.25) if rich else (2, E))]
     if cname == "Logarithm":
-        return [(cname, nm.var(), b) for b in ((2, E, 0.5) if rich else (2, E))]
+        return [(cname, nm.var(), b) for b in ((2, E, 0.5, 4, 0.25) if rich else (2, E))]
     if cname in spec.BINARY:
         return [(cname, nm.var(), nm.var())]
     if cname in spec.NARY:
         out = [(cname, [nm.var(), nm.var()])]
         if rich:
             out += [(cname, []), (cname, [nm.var()]), (cname, [("Constant", -2), nm.var()]),
-                    (cname, [nm.var(), ("Constant", 2)]), (cname, [("Constant", 0), nm.var()])]
+                    (cname, [nm.var(), ("Constant", 2)]), (cname, [("Constant", 0), nm.var()]),
+                    # the sign carried as a literal -1 (first or last) or as a negated child
+                    (cname, [("Constant", -1), nm.var()]), (cname, [nm.var(), nm.var(), ("Constant", -1)]),
+                    (cname, [("Negation", nm.var()), nm.var()])]
         return out
     return []
 
@@ -112,10 +126,10 @@ def rule_inputs(model: Model, tier: str):
                         for n in ns_self:
                             out.append(((k, ch, n), f"{k}<{ck}>"))
                     elif k == "Exponential":
-                        for b in (2, E, 0.5, 1):
+                        for b in (2, E, 0.5, 1, 4):
                             out.append(((k, ch, b), f"{k}<{ck}>"))
                     else:
-                        for b in (2, E, 0.5):
+                        for b in (2, E, 0.5, 4):
                             out.append(((k, ch, b), f"{k}<{ck}>"))
         elif k in spec.BINARY:
             if deep:
